@@ -389,3 +389,207 @@ theorem maxPathBeam_returns (g : G D) (beam : Nat) (score : D → Int) (hne : g.
   simp
 
 end Graph
+
+/-! ### when does the beam search return?  On graphs whose extensions all resolve, with a beam of at least one state -/
+namespace Graph
+open Compress (Seq Node)
+open Walk (Dir)
+variable {D : Type}
+
+/-- every side of a node that records an extension has at least one resolvable edge (true when all extensions resolve) -/
+def Resolving (g : G D) : Prop :=
+  ∀ (i : Nat) (n : Node D) (d : Dir), g.nodes[i]? = some n → 0 < n.exts.numExtDir d → ∃ es, findEdges g i d = some es ∧ es ≠ []
+
+/-- an active state can be expanded: the exit side of its last node has an edge -/
+def ActiveOK (g : G D) (s : BState) : Prop :=
+  s.status = 0 → ∃ cur es, s.path.getLast? = some cur ∧ findEdges g cur.1 cur.2.flip = some es ∧ es ≠ []
+
+theorem mapM_length {α β} (f : α → Option β) : ∀ (l : List α) (out : List β), l.mapM f = some out → out.length = l.length := by
+  intro l
+  induction l with
+  | nil => intro out h; cases h; rfl
+  | cons a t ih =>
+    intro out h
+    obtain ⟨b, bs, _, h2, rfl⟩ := mapM_cons_some f a t out h
+    simp [ih bs h2]
+
+theorem expandState_active (g : G D) (score : D → Int) (s : BState) (hst : s.status = 0) (ha : ActiveOK g s)
+    (l : List BState) (h : expandState g score s = some l) : l ≠ [] ∧ ∀ t ∈ l, ActiveOK g t := by
+  obtain ⟨cur, es, hlast, he, hne⟩ := ha hst
+  unfold expandState at h
+  rw [hlast] at h
+  simp only at h
+  rw [he] at h
+  simp only at h
+  constructor
+  · intro hl
+    have := mapM_length _ es l h
+    rw [hl] at this
+    exact hne (List.length_eq_zero_iff.mp this.symm)
+  · intro t ht
+    obtain ⟨e, _, hte⟩ := mapM_mem _ es l h t ht
+    cases hn : g.nodes[e.1]? with
+    | none => rw [hn] at hte; cases hte
+    | some nn =>
+      rw [hn] at hte
+      simp only at hte
+      by_cases hc : (s.path.any fun p => p.1 == e.1) = true
+      · rw [if_pos hc] at hte
+        simp only [Option.map_some, Option.some.injEq] at hte
+        subst hte
+        intro h0; cases h0
+      · rw [if_neg hc] at hte
+        cases he2 : findEdges g e.1 e.2.1.flip with
+        | none => rw [he2] at hte; cases hte
+        | some es2 =>
+          rw [he2] at hte
+          simp only [Option.map_some, Option.some.injEq] at hte
+          subst hte
+          intro h0
+          simp only at h0
+          have hne2 : es2 ≠ [] := by
+            intro e0; rw [e0] at h0; simp at h0
+          exact ⟨(e.1, e.2.1), es2, by simp, he2, hne2⟩
+
+theorem beamRound_active (g : G D) (score : D → Int) (beam : Nat) (hb : 1 ≤ beam) (states : List BState)
+    (hne : states ≠ []) (ha : ∀ s ∈ states, ActiveOK g s) (ns : List BState) (act : Bool)
+    (h : beamRound g score beam states = some (ns, act)) : ns ≠ [] ∧ ∀ s ∈ ns, ActiveOK g s := by
+  unfold beamRound at h
+  cases hm : states.mapM (fun s => if s.status == 0 then expandState g score s else some [s]) with
+  | none => rw [hm] at h; cases h
+  | some parts =>
+    rw [hm] at h
+    simp only [Option.some.injEq, Prod.mk.injEq] at h
+    obtain ⟨rfl, _⟩ := h
+    -- every part is non-empty and consists of expandable states
+    have hparts : ∀ part ∈ parts, part ≠ [] ∧ ∀ t ∈ part, ActiveOK g t := by
+      intro part hp
+      obtain ⟨s0, hs0, hf⟩ := mapM_mem _ states parts hm part hp
+      by_cases hst : (s0.status == 0) = true
+      · rw [if_pos hst] at hf
+        exact expandState_active g score s0 (by simpa using hst) (ha s0 hs0) part hf
+      · rw [if_neg hst] at hf
+        simp only [Option.some.injEq] at hf
+        subst hf
+        refine ⟨by simp, fun t ht => ?_⟩
+        simp only [List.mem_cons, List.mem_nil_iff, or_false] at ht
+        subst ht
+        exact ha _ hs0
+    have hflat : parts.flatten ≠ [] := by
+      obtain ⟨s0, t0, hst⟩ := List.exists_cons_of_ne_nil hne
+      have hlen := mapM_length _ states parts hm
+      have hpne : parts ≠ [] := by
+        intro e; rw [e, hst] at hlen; simp at hlen
+      obtain ⟨p0, pt, hp⟩ := List.exists_cons_of_ne_nil hpne
+      obtain ⟨x, xs, hx⟩ := List.exists_cons_of_ne_nil (hparts p0 (by rw [hp]; simp)).1
+      rw [hp, List.flatten_cons, hx]; simp
+    constructor
+    · intro e
+      have hlen : ((parts.flatten.mergeSort fun a b => decide (b.score ≤ a.score)).take beam).length = 0 := by rw [e]; rfl
+      rw [List.length_take, List.length_mergeSort] at hlen
+      have : 0 < parts.flatten.length := List.length_pos_iff.mpr hflat
+      omega
+    · intro s hs
+      have h1 := List.mem_of_mem_take hs
+      have h2 : s ∈ parts.flatten := (List.mergeSort_perm _ _).mem_iff.mp h1
+      obtain ⟨part, hp, hsp⟩ := List.mem_flatten.mp h2
+      exact (hparts part hp).2 s hsp
+
+theorem beamLoop_nonempty (g : G D) (score : D → Int) (beam : Nat) (hb : 1 ≤ beam) : ∀ (fuel : Nat) (states : List BState),
+    states ≠ [] → (∀ s ∈ states, ActiveOK g s) → ∀ out, beamLoop g score beam fuel states = some out → out ≠ [] := by
+  intro fuel
+  induction fuel with
+  | zero => intro states _ _ out h; cases h
+  | succ fuel ih =>
+    intro states hne ha out h
+    unfold beamLoop at h
+    cases hr : beamRound g score beam states with
+    | none => rw [hr] at h; cases h
+    | some r =>
+      obtain ⟨ns, act⟩ := r
+      rw [hr] at h
+      simp only at h
+      obtain ⟨hne', ha'⟩ := beamRound_active g score beam hb states hne ha ns act hr
+      by_cases hact : act = true
+      · rw [if_pos hact] at h; exact ih ns hne' ha' out h
+      · rw [if_neg hact] at h; cases h; exact hne'
+
+theorem beamInit_active (g : G D) (hr : Resolving g) (hne : g.nodes.isEmpty = false) (score : D → Int) :
+    beamInit g score ≠ [] ∧ ∀ s ∈ beamInit g score, ActiveOK g s := by
+  unfold beamInit
+  simp only
+  split
+  · rename_i hemp
+    -- no node without extensions on a side: start at node 0, which has extensions on both sides
+    obtain ⟨n0, t, hn⟩ : ∃ n0 t, g.nodes = n0 :: t := by
+      cases hg : g.nodes with
+      | nil => rw [hg] at hne; simp at hne
+      | cons a t => exact ⟨a, t, rfl⟩
+    have h0 : g.nodes[0]? = some n0 := by rw [hn]; rfl
+    rw [h0]
+    refine ⟨by simp, fun s hs => ?_⟩
+    simp only [List.mem_cons, List.mem_nil_iff, or_false] at hs
+    subst hs
+    intro _
+    have hboth : ¬ ((n0.exts.numExtDir .L == 0 || n0.exts.numExtDir .R == 0) = true) := by
+      intro hc
+      have hmem : (n0, 0) ∈ g.nodes.zipIdx := by rw [hn]; simp [List.zipIdx_cons]
+      have : ((g.nodes.zipIdx.filterMap fun (ni : Node D × Nat) =>
+          if (ni.1.exts.numExtDir .L == 0 || ni.1.exts.numExtDir .R == 0) = true then
+            some (⟨[(ni.2, if ni.1.exts.numExtDir .L > 0 then Dir.R else Dir.L)], score ni.1.data,
+              if (ni.1.exts.numExtDir .L == 0 && ni.1.exts.numExtDir .R == 0) = true then 1 else 0⟩ : BState)
+          else none)).isEmpty = true := hemp
+      rw [List.isEmpty_iff] at this
+      have hm : (⟨[((n0, 0).2, if (n0, 0).1.exts.numExtDir .L > 0 then Dir.R else Dir.L)], score (n0, 0).1.data,
+              if ((n0, 0).1.exts.numExtDir .L == 0 && (n0, 0).1.exts.numExtDir .R == 0) = true then 1 else 0⟩ : BState) ∈
+          (g.nodes.zipIdx.filterMap fun (ni : Node D × Nat) =>
+          if (ni.1.exts.numExtDir .L == 0 || ni.1.exts.numExtDir .R == 0) = true then
+            some (⟨[(ni.2, if ni.1.exts.numExtDir .L > 0 then Dir.R else Dir.L)], score ni.1.data,
+              if (ni.1.exts.numExtDir .L == 0 && ni.1.exts.numExtDir .R == 0) = true then 1 else 0⟩ : BState)
+          else none) :=
+        List.mem_filterMap.mpr ⟨(n0, 0), hmem, by simp only; rw [if_pos hc]⟩
+      rw [this] at hm
+      cases hm
+    simp only [Bool.or_eq_true, beq_iff_eq, not_or] at hboth
+    obtain ⟨es, he, hne'⟩ := hr 0 n0 .R h0 (by omega)
+    exact ⟨(0, .L), es, rfl, he, hne'⟩
+  · rename_i hnemp
+    refine ⟨by intro e; rw [e] at hnemp; simp at hnemp, fun s hs => ?_⟩
+    obtain ⟨ni, hni, hf⟩ := List.mem_filterMap.mp hs
+    split at hf
+    · rename_i hcond
+      simp only [Option.some.injEq] at hf
+      subst hf
+      intro hst
+      simp only at hst
+      have hidx := List.mem_zipIdx hni
+      obtain ⟨_, h2, h3⟩ := hidx
+      simp only [Nat.zero_add] at h2 h3
+      have hnode : g.nodes[ni.2]? = some ni.1 := by rw [List.getElem?_eq_getElem h2, h3]; simp
+      have hnot : ¬ ((ni.1.exts.numExtDir .L == 0 && ni.1.exts.numExtDir .R == 0) = true) := by
+        intro hc; rw [if_pos hc] at hst; cases hst
+      simp only [Bool.and_eq_true, beq_iff_eq, not_and] at hnot
+      simp only [Bool.or_eq_true, beq_iff_eq] at hcond
+      by_cases hl : ni.1.exts.numExtDir .L > 0
+      · obtain ⟨es, he, hne'⟩ := hr ni.2 ni.1 .L hnode hl
+        refine ⟨(ni.2, .R), es, ?_, he, hne'⟩
+        simp only [hl, if_true, List.getLast?_singleton]
+      · have hl0 : ni.1.exts.numExtDir .L = 0 := by omega
+        have hr0 : 0 < ni.1.exts.numExtDir .R := by have := hnot hl0; omega
+        obtain ⟨es, he, hne'⟩ := hr ni.2 ni.1 .R hnode hr0
+        refine ⟨(ni.2, .L), es, ?_, he, hne'⟩
+        simp only [hl, if_false, List.getLast?_singleton]
+    · cases hf
+
+/-- **`max_path_beam` returns** on every non-empty graph whose recorded extensions all resolve, for every beam width ≥ 1
+    (with a dangling extension the only state can be dropped and `states[0]` panics: a node `ACGT` with right extension `A`
+    recorded and no such node is the smallest case, confirmed on the crate) -/
+theorem maxPathBeam_some (g : G D) (hr : Resolving g) (hne : g.nodes.isEmpty = false) (beam : Nat) (hb : 1 ≤ beam) (score : D → Int) :
+    ∃ path, maxPathBeam g beam score = some path := by
+  obtain ⟨sts, hl, hm⟩ := maxPathBeam_returns g beam score hne
+  obtain ⟨hi1, hi2⟩ := beamInit_active g hr hne score
+  have := beamLoop_nonempty g score beam hb _ _ hi1 hi2 sts hl
+  obtain ⟨s0, t, rfl⟩ := List.exists_cons_of_ne_nil this
+  exact ⟨s0.path, by rw [hm]; rfl⟩
+
+end Graph
